@@ -78,6 +78,27 @@ package pool
 //@   at call WriteAt#3 assert device-and-file-position-in-lockstep: sector - firstSector == sectorIndex - firstSectorIndex && len(arg1) == f.fp.sectorSizeBytes
 //@   ensures writes-no-more-than-was-allocated: r3 == nil ==> r0 >= 1 && r0 <= old(len(p)) && r0 <= r2 * f.fp.sectorSizeBytes - offsetWithinSector
 
+// The sector allocator only reports that space is exhausted when no sector at
+// all is free: its three scan phases (rest of the current word, the words
+// behind it, the words from the start up to and including the current one)
+// cover the whole bitmap, so sectors given back by truncate or close are
+// available again wherever they lie.
+//@ func (*bitmapSectorAllocator).allocateAt
+//@   props C15
+//@   ensures allocation-at-a-free-word-succeeds: r2 == nil
+//@ func (*bitmapSectorAllocator).AllocateContiguous
+//@   props C15
+//@   assume len(sa.freeBitmap) <= 67108865 && sa.nextSector / 64 < len(sa.freeBitmap) -- the bitmap was built for a 32-bit sector count (NewBitmapSectorAllocator) and the scan position lies inside it
+//@   loop 0 invariant sa == old(sa) && sa.freeBitmap == old(sa.freeBitmap) && split == old(sa.nextSector) / 64 &&
+//@             (forall k int :: 0 <= k && k < len(sa.freeBitmap) ==> sa.freeBitmap[k] == old(sa.freeBitmap[k])) &&
+//@             i > split && (forall k int :: split < k && k < i ==> sa.freeBitmap[k] == 0)
+//@   loop 1 invariant sa == old(sa) && sa.freeBitmap == old(sa.freeBitmap) && split == old(sa.nextSector) / 64 &&
+//@             (forall k int :: 0 <= k && k < len(sa.freeBitmap) ==> sa.freeBitmap[k] == old(sa.freeBitmap[k])) &&
+//@             (forall k int :: split < k && k < len(sa.freeBitmap) ==> sa.freeBitmap[k] == 0) &&
+//@             (forall k int :: 0 <= k && k < i ==> sa.freeBitmap[k] == 0)
+//@   ensures out-of-space-only-when-no-sector-is-free: r2 != nil ==>
+//@             (forall k int :: 0 <= k && k < len(sa.freeBitmap) ==> old(sa.freeBitmap[k]) == 0)
+
 // Shrinking a file to a size inside an allocated data sector overwrites the
 // cut-off tail of that sector with zeroes, so that growing the file again does
 // not bring the old bytes back (regions never written read as the hole
